@@ -236,6 +236,14 @@ cfg["C12"] = {
     "assumptions": ledger_assume,
 }
 
+cfg["C14"] = {
+    "title": "A crash during deployment is repaired by recovery", "design_ref": "DESIGN.md §4 C14 / §7.2",
+    "runs": [{"dir": CAL, "inline_go": True, "quick": P("VerifCrashRecovery", "crash=24,count=2") + ["VerifDecodeProbe"], "thorough": P("VerifCrashRecovery", "crash=24,count=2", "crash=32,count=3") + ["VerifDecodeProbe"], "samples": 6}],
+    "bounds": "CreateWorkload (AUTO, two nodes with 0-2 deployable slots, count 1-2, thorough 3) is stopped at EVERY position between two externally visible steps (store / plugin / engine / log calls, <=24-32 positions, symbolic): from that call on nothing the dying process does reaches the store, the resource records, the engine or the log. Then a new Calcium instance sharing those runs the real WAL handlers (CreateWorkloadHandler, WorkloadResourceAllocatedHandler, ProcessingCreatedHandler) through Recover",
+    "outside": "the bbolt log file itself and process restart (the log is a model with Hydro's replay semantics - those are C16); goroutine interleavings (one sequential schedule); crashes during recovery; the create-lambda event; the real plugin's repair arithmetic (C15) is replaced by usage := sum of recorded workloads",
+    "assumptions": ledger_assume + ["a crash is modelled by freezing the world: the interrupted operation keeps executing its error paths in memory but no call has any effect any more (equivalent to process death for everything persistent)", "lock leases of the dead process have expired when the new instance starts"],
+}
+
 meta = {
     "C01": "Every feasible path of strategy.Deploy and the five real strategy functions (real container/heap and sort SSA) is executed with capacities, counts, need, limit, usage and rate symbolic; on each path z3 proves the plan assertions (only candidates, 0<=d<=capacity, exact totals, EACH/FILL selection sizes, AUTO node limit) for all values inside the bounds, or returns a model that is replayed natively. Bounded by node count and, for AUTO/GLOBAL, by need.",
     "C02": "Same exploration; on every path z3 proves err==nil <=> a harness-side reference feasibility predicate (saturating sums, no wrap) and that a refusal returns no plan.",
@@ -246,6 +254,7 @@ meta = {
     "C07": "On each path the reported capacity c is compared with the real allocation for a symbolic count: accepted iff count <= c; memory-only capacity drops by exactly k after committing k; zero-capacity nodes are absent and the total is the saturating sum.",
     "C08": "One inductive step per operation from an arbitrary pre-state satisfying usage = R + w: after alloc/realloc every component equals the sum over live workloads, and operation+rollback restores the pre-state exactly. Covers histories of any length if the invariant is right.",
     "C12": "The real CreateWorkload pipeline (doCreateWorkloads, doGetDeployStrategy with the real AUTO strategy, doDeployWorkloads, doDeployWorkloadsOnNode, doDeployOneWorkload, utils.Txn, lock wrappers) runs against the ledger world under the run-to-completion goroutine model; z3-decided paths prove the stream closes with one failure and nothing created or exactly one message per planned instance, successes name recorded+started workloads on the reported node, failures leave no record/container, no processing marker remains.",
+    "C14": "The real CreateWorkload pipeline is interrupted at a symbolic call position (world frozen), then the real calcium WAL handlers run through a model log with Hydro's replay semantics in a fresh Calcium; z3-decided paths prove usage = sum of recorded workloads on every node, no processing marker, every recorded workload has a started container and every container is recorded (except the one created in the instant before the crash and not yet logged).",
     "C15": "FixNodeResource and GetNodeResourceInfo are executed on a node whose recorded usage is arbitrary in every component; z3 proves per path that the stored usage afterwards equals the component-wise sum of the workloads and that a second check reports no differences.",
     "C32": "CalculateRemap is executed on arbitrary node states with every bound/unbound mix; z3 proves the answer covers exactly the unbound workloads with exactly the cores having >= one share base free (all cores if none).",
     "C09": "cobalt.Manager.GetNodesDeployCapacity and mergeCapacity are executed with symbolic plugin answers and a symbolic merge order; z3 proves per path that the offered set is the intersection, capacity the minimum, usage/rate the weighted average (as exact fractions) and that two merge orders give identical results.",
